@@ -579,6 +579,53 @@ where for<'x> &'x R: EucRingOps<R> {
     if r.chance(1, 2) { run_complex(s, r, &tag, &ds, &want, sh.lvl, true); }
 }
 
+/// longer planted complexes C_L -> … -> C_1 -> C_0: d_i = U_{i-1}·D_i·U_i⁻¹, where in the adapted basis of C_i the first
+/// r_{i+1} coordinates are the image of d_{i+1}, the next r_i are mapped by a divisibility chain onto the first r_i of C_{i-1}.
+fn run_long<R: HRing>(s: &mut Sink, r: &mut Rng, len: usize, maxdim: usize, lvl: u32, tag: &str)
+where for<'x> &'x R: EucRingOps<R> {
+    let made = guard_msg(|| {
+        let dims: Vec<usize> = (0..=len).map(|_| if r.chance(1, 10) { 0 } else { r.below(maxdim as u64 + 1) as usize }).collect();
+        // ranks: rk[i] = rank d_i (i = 1..=len), rk[0] = rk[len+1] = 0
+        let mut rk = vec![0usize; len + 2];
+        for i in 1..=len {
+            let room = dims[i - 1] - rk[i - 1].min(dims[i - 1]);   // C_{i-1} must still hold the image: r_i <= n_{i-1} - r_{i-1}
+            let mx = room.min(dims[i]);
+            rk[i] = match r.below(4) { 0 => 0, 1 => mx, _ => r.below(mx as u64 + 1) as usize };
+        }
+        let us: Vec<(D<R>, D<R>)> = dims.iter().map(|&n| { let ops = r.below(n as u64 + 2) as usize; rnd_unimodular::<R>(r, n, ops, lvl.min(2)) }).collect();
+        let mut ds: Vec<D<R>> = vec![D::zero(0, dims[0])];
+        let mut chains: Vec<Vec<R>> = vec![vec![]];
+        for i in 1..=len {
+            let nt = r.below(rk[i].min(2) as u64 + 1) as usize;
+            let ch = rnd_chain::<R>(r, rk[i], nt, lvl);
+            let mut dd = D::<R>::zero(dims[i - 1], dims[i]);
+            // the source block of C_i starts after the image block of d_{i+1}; since r_{i+1} is not known yet when r_i is
+            // drawn, the source block is placed at the END of C_i and the image block at the START (they never overlap
+            // because r_{i+1} <= n_i - r_i)
+            for (j, x) in ch.iter().enumerate() { dd.set(j, dims[i] - rk[i] + j, x.clone()); }
+            ds.push(us[i - 1].0.mul(&dd).mul(&us[i].1));
+            chains.push(ch);
+        }
+        for i in 1..len { assert!(ds[i].mul(&ds[i + 1]).is_zero(), "harness: d·d ≠ 0 in a long complex"); }
+        let want: Vec<Option<(usize, Vec<R>)>> = (0..=len).map(|i| {
+            let tors = if i < len { nonunits(&chains[i + 1]) } else { vec![] };
+            Some((dims[i] - rk[i] - rk[i + 1], tors))
+        }).collect();
+        (ds, want)
+    });
+    let (ds, want) = match made {
+        Ok(x) => x,
+        Err(msg) => {
+            assert!(R::bounded() && msg.contains("overflow"), "harness bug while planting: {msg}");
+            s.count(&format!("plant-overflow.{}", R::name()));
+            return
+        }
+    };
+    s.count(&format!("long.len={len}"));
+    let reduced = r.chance(1, 3);
+    run_complex(s, r, tag, &ds, &want, lvl, reduced);
+}
+
 fn rnd_shape(r: &mut Rng, maxdim: usize, lvl: u32, ops_mul: usize) -> Shape {
     let dim = |r: &mut Rng| -> usize { if r.chance(1, 8) { 0 } else { r.below(maxdim as u64 + 1) as usize } };
     let (m, n, k) = (dim(r), dim(r), dim(r));
@@ -744,6 +791,11 @@ where for<'x> &'x R: EucRingOps<R> {
         let sh = rnd_shape(r, maxdim, lvl, ops_mul);
         let tag = format!("planted#{i}");
         guarded_case(s, &format!("ring={} {}", R::name(), tag), |s| run_planted::<R>(s, r, &sh, &tag));
+        if i % 4 == 0 {
+            let len = 3 + r.below(3) as usize;
+            let tag = format!("long#{i}");
+            guarded_case(s, &format!("ring={} {}", R::name(), tag), |s| run_long::<R>(s, r, len, maxdim.min(6), lvl, &tag));
+        }
     }
 }
 
